@@ -162,6 +162,53 @@ impl IRC for R {
     }
 }
 
+/// a zero-sized payload WITH a destructor
+pub static mut Z_MADE: u32 = 0;
+pub static mut Z_DROPS: u32 = 0;
+pub struct ZDrop(());
+impl ZDrop {
+    pub fn new() -> ZDrop {
+        unsafe { Z_MADE += 1 };
+        ZDrop(())
+    }
+}
+impl Drop for ZDrop {
+    fn drop(&mut self) {
+        unsafe { Z_DROPS += 1 };
+    }
+}
+
+/// payload shapes: a tuple, result types written with a module path, a zero-sized droppable payload
+#[cglue_trait]
+#[int_result]
+pub trait IRT {
+    fn irt_tuple(&self, fail: bool) -> Result<(u32, u64), ()>;
+    fn irt_path(&self, fail: bool) -> std::result::Result<u64, ()>;
+    fn irt_core_unit(&self, fail: bool) -> core::result::Result<(), ()>;
+    fn irt_zst(&self, fail: bool) -> Result<ZDrop, ()>;
+}
+impl IRT for R {
+    fn irt_tuple(&self, fail: bool) -> Result<(u32, u64), ()> {
+        if fail { Err(()) } else { Ok((self.k as u32 ^ 3, self.k ^ 5)) }
+    }
+    fn irt_path(&self, fail: bool) -> std::result::Result<u64, ()> {
+        if fail { Err(()) } else { Ok(self.k ^ 17) }
+    }
+    fn irt_core_unit(&self, fail: bool) -> core::result::Result<(), ()> {
+        if fail { Err(()) } else { Ok(()) }
+    }
+    fn irt_zst(&self, fail: bool) -> Result<ZDrop, ()> {
+        if fail { Err(()) } else { Ok(ZDrop::new()) }
+    }
+}
+
+/// payload-less integer-coded entries: `(container, flag) -> i32`
+impl<C> EntryShape<()> for for<'a> unsafe extern "C" fn(&'a C, bool) -> i32 {
+    unsafe fn call_int_coded(self, cont: *const u8, flag: bool, _slot: &mut MaybeUninit<()>) -> Option<i32> {
+        Some(self(&*(cont as *const C), flag))
+    }
+}
+
 /// Drive one entry: integer-coded iff `expect_int`; 0 exactly for Ok; slot written iff Ok.
 fn drive_entry<F: EntryShape<T>, T: Copy + PartialEq>(f: F, cont: *const u8, fail: bool, sentinel: T, ok_val: T, expect_int: bool) {
     let mut out = MaybeUninit::<T>::uninit();
@@ -241,6 +288,35 @@ nd::harnesses! {
             Err(e) => assert!(fail && e.raw_os_error() == Some(7)),
         }
         core::mem::forget(r);
+    }
+
+    /// Payload shapes of integer-coded methods: a tuple (slot written with both components), result types spelled with a
+    /// module path (still integer-coded), a payload-less `core::result::Result<(), E>`, and a zero-sized payload with a
+    /// destructor (moved through the slot: created once, destroyed once, by the caller).
+    fn c13e_payload_shapes() {
+        let twin = R { k: nd::any() };
+        let k = twin.k;
+        let fail: bool = nd::any();
+        let s64: u64 = nd::any();
+        let s32: u32 = nd::any();
+        nd::cover!(fail, "Err");
+        nd::cover!(!fail, "Ok");
+        unsafe { Z_MADE = 0; Z_DROPS = 0; }
+        let t = trait_obj!(&twin as IRT);
+        let vt: &IRTVtbl<_> = t.get_vtbl_base();
+        let (_, cont) = c_view(&t, vt, 0, 4);
+        drive_entry(vt.irt_tuple(), cont, fail, (s32, s64), (k as u32 ^ 3, k ^ 5), true);
+        drive_entry(vt.irt_path(), cont, fail, s64, k ^ 17, true);
+        drive_entry(vt.irt_core_unit(), cont, fail, (), (), true);
+        assert!(t.irt_tuple(fail) == twin.irt_tuple(fail) && t.irt_path(fail) == twin.irt_path(fail));
+        assert!(t.irt_core_unit(fail) == twin.irt_core_unit(fail));
+        {
+            let z = t.irt_zst(fail);
+            assert!(z.is_err() == fail);
+            assert!(unsafe { Z_MADE } == if fail { 0 } else { 1 } && unsafe { Z_DROPS } == 0, "a zero-sized payload is moved, not destroyed, on its way out");
+            drop(z);
+        }
+        assert!(unsafe { Z_DROPS == Z_MADE }, "destroyed exactly once");
     }
 
     /// Rust-side round trip equals the direct call, for every marker combination.
